@@ -73,6 +73,12 @@ impl VmCase {
     pub fn ops(&self) -> Vec<Op> {
         crate::ops::from_bytes(&self.program).unwrap_or_default()
     }
+    /// Solution 0 solves a predicate of `contract`; the others belong to other contracts.
+    pub fn contract_of(&self, i: usize) -> [u8; 32] {
+        let mut c = self.contract;
+        c[31] ^= i as u8;
+        c
+    }
     pub fn solutions_arc(&self) -> Arc<Vec<Solution>> {
         Arc::new(
             self.solutions
@@ -80,7 +86,7 @@ impl VmCase {
                 .enumerate()
                 .map(|(i, d)| Solution {
                     predicate_to_solve: PredicateAddress {
-                        contract: ContentAddress(self.contract),
+                        contract: ContentAddress(self.contract_of(i)),
                         predicate: ContentAddress([i as u8 + 1; 32]),
                     },
                     predicate_data: d.clone(),
@@ -236,6 +242,9 @@ pub struct RunOpts {
     pub op_budget: u64,
     pub item_budget: u64,
     pub device_budget: u64,
+    /// after the first call, reset pc and stack and execute again on behalf of this solution
+    /// index (same VM, same lazily cached data)
+    pub then_as: Option<usize>,
 }
 
 impl Default for RunOpts {
@@ -246,6 +255,7 @@ impl Default for RunOpts {
             op_budget: 400_000,
             item_budget: 100_000,
             device_budget: 200_000,
+            then_as: None,
         }
     }
 }
@@ -259,9 +269,14 @@ pub fn initial_vm(case: &VmCase) -> Result<Vm, String> {
 
 /// Execute the case on the real VM (in whatever scheduling mode is active on this thread).
 pub fn exec_real(case: &VmCase, vm: &mut Vm, limit_total: u64) -> VmResult {
+    exec_real_as(case, vm, limit_total, case.index)
+}
+
+/// … on behalf of solution `index`.
+pub fn exec_real_as(case: &VmCase, vm: &mut Vm, limit_total: u64, index: usize) -> VmResult {
     let access = Access {
         solutions: case.solutions_arc(),
-        index: case.index,
+        index,
     };
     let (pre, post) = case.states();
     let st = (pre, post);
@@ -314,7 +329,12 @@ pub fn run_vm(
         hooks::set_op_budget(opts.op_budget);
         let r = crate::runner::catch(|| {
             let mut vm = initial_vm(&c2).expect("initial state within bounds");
-            let res = exec_real(&c2, &mut vm, limit_total);
+            let mut res = exec_real(&c2, &mut vm, limit_total);
+            if let Some(ix) = opts.then_as {
+                vm.pc = 0;
+                vm.stack = Stack::try_from(c2.init_stack.clone()).expect("initial stack");
+                res = exec_real_as(&c2, &mut vm, limit_total, ix);
+            }
             (res, state_of(&vm))
         });
         (r, events::take(), hooks::take(), store::fired())
